@@ -115,6 +115,19 @@ CLAIMS = {
         'that the premises hold (one type rule per node; distinct copied keys); harness. Goroutine scheduling is C11.',
    technique='Coq proofs of order-freeness per loop shape + source-regenerated inventory of map ranges + repetition/permutation exploration',
    ref='section 9, C09'),
+ 'C06': dict(
+   category='proof',
+   text='Coq theorems over the model of check_recusrion.go and of the example builder: for every project, table configuration and fuel, '
+        'an "infinite recursion" verdict implies the root has no finite instance (infinite descent on the height of an instantiability '
+        'derivation); a root that requires itself through mandatory single-name links of any length is reported whenever the check '
+        'returns; the example builder terminates within an explicit fuel bound (each type expanded at most twice on a path) and the '
+        'bytes it writes form an RFC 8259 value (Spec/JsonGrammar.v). Tie: model vs Check()/Example() on all graphs over root + 2 types '
+        'with every edge kind, chains up to length 6 with one weakened link at every position, random graphs over up to 6 types, in '
+        'both registration styles; an independent python oracle computes instantiability and mandatory chains.',
+   note='Trusted: Coq kernel; model tied by correspondence (104 verdict, shape of the example); schema text printer and python oracle. '
+        'Partial: termination of the checker is not proved (fuel 4000 in the correspondence). Only value shortcuts are links. No axioms.',
+   technique='Coq proofs (infinite descent, induction on derivations, fuel bound) + model/implementation correspondence + graph oracle',
+   ref='section 9, C06'),
 }
 
 def main():
